@@ -161,6 +161,45 @@ def run(ctx, F, cg):
             ctx.ok("R33b", "active-membership", "the active count filters by membership in the active-node set")
         else:
             ctx.violation("R33b", "active-filter", where(r), "active voters are not selected by membership in the active-node set")
+    # ---- R33d a removed member is no voting member any more -----------------------------------------------------
+    ctx.rule("R33d", "removing a member removes every configuration entry that names its id (the node list may name an id more than once): ClusterManager::remove_node edits ClusterConfig.nodes with retain, or with single-element removals inside a loop — a first-match removal leaves a removed node among the voters")
+    rn = [x for p, x in F.fns.items() if p.startswith("samyama::raft::cluster::ClusterManager::remove_node") and x["coroutine"]]
+    if len(rn) != 1:
+        ctx.anchor_failure("R33d", "ClusterManager::remove_node coroutine body (found %d)" % len(rn))
+    else:
+        rr = rn[0]
+        rb = Body(F.mir(rr["path"]), rr)
+        ctx.saw_fn(rr["path"])
+        edits = []
+        for c in rb.calls():
+            if not c.args or c.args[0][0] == "k":
+                continue
+            ty = rb.local_ty(c.args[0][1][0])
+            if not ty.startswith("&mut std::vec::Vec<samyama::raft::cluster::NodeConfig"):
+                continue
+            if not any(f.endswith("ClusterConfig.nodes") for f in od.chain_fields(rb, c.args[0])):
+                continue
+            edits.append(c)
+        if not edits:
+            ctx.violation("R33d", "remove_node|no-edit", where(rr), "remove_node does not edit the configuration's node list through a recognised call: the removal is not analysed")
+        for c in edits:
+            name = c.path.rsplit("::", 1)[-1]
+            in_loop = any(c.bb in rb.reachable(s_) for s_ in rb.succ(c.bb))
+            if name == "retain":
+                cl = [o[1][8:] for a in c.args[1:] if a[0] != "k" for o in rb.origins(a[1][0]) if o[0] == "agg" and o[1].startswith("closure:")]
+                reads_id = any(any(x.endswith("NodeConfig.id") for x in F.fns.get(k_, {}).get("r", ())) for k_ in cl)
+                if reads_id:
+                    ctx.ok("R33d", "remove_node|retain", "every entry is tested by id")
+                else:
+                    ctx.violation("R33d", "remove_node|retain-not-by-id", where(rr, c.line), "the retain predicate does not read NodeConfig.id")
+            elif name in ("remove", "swap_remove", "pop") and in_loop:
+                ctx.ok("R33d", "remove_node|loop-" + name, "single-element removal repeated in a loop")
+            elif name in ("remove", "swap_remove", "pop"):
+                ctx.violation("R33d", "remove_node|first-match-only", where(rr, c.line), "remove_node deletes one entry (Vec::%s outside a loop): a second entry naming the same id survives, and the removed node keeps counting as a voter" % name)
+            elif name in ("iter", "iter_mut", "len", "is_empty", "deref", "deref_mut", "as_slice", "as_mut_slice"):
+                continue
+            else:
+                ctx.violation("R33d", "remove_node|" + name, where(rr, c.line), "removal through Vec::%s is not analysed" % name)
     # ---- R33c conjunction with has_leader ------------------------------------------------------------
     for _ in range(6):
         ds1 = b.defs().get(hl, [])
